@@ -1,6 +1,7 @@
 (* Request dispatcher shared by C01 and C02 (packet encoders, signed portions). *)
-From NDN Require Import Base.Prelude Base.Sexp Model.TlvVar Model.Name Model.Tlv Model.Packet Model.PacketEnc
+From NDN Require Import Base.Prelude Base.Sexp Model.TlvVar Model.Name Model.Tlv Model.Packet Model.PacketEnc Model.PacketPtrs
   Spec.StrictTlv Spec.SignedPortion Extract.TlvSexp.
+From NDN Require Generated.Schemas.
 Local Open Scope N_scope.
 
 Definition as_sig (s : sexp) : option (option sig_in) :=
@@ -34,6 +35,9 @@ Definition as_data (s : sexp) : option data_in :=
 Definition s_made (m : made) : sexp :=
   SList [SBytes (m_wire m); SList (map SBytes (m_final_name m)); SBytes (m_sig_covered m); SBytes (m_digest_covered m)].
 Definition s_obytes (o : option bytes) : sexp := s_opt SBytes o.
+Definition s_ptrs (p : ptrs) : sexp :=
+  SList [s_list SBytes (p_sig_covered p); s_opt SBytes (p_sig_value p);
+         s_list SBytes (p_dig_covered p); s_opt SBytes (p_dig_value p)].
 
 (* the hash and signature primitives are supplied as data: (digest, signature bytes) *)
 Definition run (req : sexp) : sexp :=
@@ -52,6 +56,9 @@ Definition run (req : sexp) : sexp :=
   | SList [SNum 11; SBytes v] => s_obytes (signed_portion_interest v)
   | SList [SNum 12; SBytes v] => s_obytes (digest_portion v)
   | SList [SNum 13; SBytes v] => s_obytes (digest_component v)
+  (* what the decoders report as covered (Model/PacketPtrs.v over the reflected declared order) *)
+  | SList [SNum 15; SBytes v] => s_res s_ptrs (ptrs_interest_with Generated.Schemas.ndn_format_0_3_InterestPacketValue_layout v)
+  | SList [SNum 16; SBytes v] => s_res s_ptrs (ptrs_data_with Generated.Schemas.ndn_format_0_3_DataPacketValue_layout v)
   | SList [SNum 14; SBytes w; t] => or_bad (odo x <- as_num t ;; Some (s_res SBytes (parse_and_check_tl w x)))
   | _ => s_bad_request
   end.
